@@ -9,6 +9,10 @@ structure State where
   id : String := ""
   conn : Option Conn := none
   closedBefore : Bool := false
+  /-- the peer has stopped reading (`stall`): what the client does from here on is runtime behaviour the serial
+  model has no words for (blocked writes, full queues, deadlines). The harness reports it in `mon` lines, which the
+  monitors judge; the connection is over as far as the model is concerned. -/
+  stalled : Bool := false
 
 def State.init : State := {}
 
@@ -120,6 +124,7 @@ def step (st : State) (args : List String) : State × String :=
       | some c => ({ id := id, conn := some c }, s!"hs out={handshakeOut} ready=-")
   | "cli" :: id :: op :: rest =>
     if id != st.id then (st, "bad-op") else
+    if st.stalled then (st, "mon") else
     match st.conn with
     | none => (st, "hs-err")
     | some c =>
@@ -141,6 +146,8 @@ def step (st : State) (args : List String) : State × String :=
       | "read", [tag] => run (.read tag)
       | "close", [] => if c.stuck then (st, "stuck") else run .close (if c.dead then "again" else "first")
       | "cut", [] => run .cut
+      | "errs", [] => (st, "errs")
+      | "stall", _ => if c.stuck then (st, "stuck") else ({ st with stalled := true }, "mon")
       | "failwrite", [n] =>
         if c.stuck then (st, "stuck") else
         match parseNat? n with
